@@ -9,7 +9,9 @@ use serde::{Deserialize, Serialize};
 use serde_json::{Value, json};
 use vh::common::*;
 
-const VERIF: &str = "/verif";
+fn verif_root() -> String {
+    std::env::var("VERIF_ROOT").unwrap_or_else(|_| "/verif".to_string())
+}
 
 #[derive(Serialize, Deserialize, Default)]
 struct WorkerResult {
@@ -87,7 +89,7 @@ fn worker(args: &[String]) -> i32 {
 }
 
 fn load_known() -> Vec<KnownFinding> {
-    let p = Path::new(VERIF).join("known_findings.json");
+    let p = Path::new(&verif_root()).join("known_findings.json");
     match std::fs::read(&p) {
         Ok(b) => serde_json::from_slice(&b).expect("known_findings.json is not valid"),
         Err(_) => Vec::new(),
@@ -98,7 +100,7 @@ fn write_replay(id: &str, f: &Failure) -> PathBuf {
     let body = json!({"property": id, "unit": f.unit, "case": f.case, "class": f.fail.class, "message": f.fail.msg});
     let text = serde_json::to_string_pretty(&body).unwrap();
     let h = hash_str(&text);
-    let dir = Path::new(VERIF).join("replays");
+    let dir = Path::new(&verif_root()).join("replays");
     let _ = std::fs::create_dir_all(&dir);
     let path = dir.join(format!("{id}-{:012x}.json", h & 0xffff_ffff_ffff));
     std::fs::write(&path, text).unwrap();
@@ -130,7 +132,7 @@ fn check(id: &str, tier: Tier) -> i32 {
     // 1. regression tier: saved inputs of fixed and known findings
     let skip_replays = std::env::var("VH_SKIP_REPLAYS").is_ok();
     for k in load_known().iter().filter(|k| !skip_replays && (k.property == id || k.also.iter().any(|a| a == id))) {
-        let path = Path::new(VERIF).join(&k.replay);
+        let path = Path::new(&verif_root()).join(&k.replay);
         // A replay file names the property whose oracle set it is run under.
         let b = match std::fs::read(&path) {
             Ok(b) => b,
@@ -165,7 +167,7 @@ fn check(id: &str, tier: Tier) -> i32 {
     let ncpu = std::thread::available_parallelism().map(|n| n.get()).unwrap_or(8);
     let n = std::env::var("VERIF_WORKERS").ok().and_then(|s| s.parse().ok()).unwrap_or(ncpu).min(all_jobs.len()).max(1);
     let exe = std::env::current_exe().unwrap();
-    let tmp = Path::new(VERIF).join("target").join("runs").join(format!("{id}-{}-{}", tier.name(), std::process::id()));
+    let tmp = Path::new(&verif_root()).join("target").join("runs").join(format!("{id}-{}-{}", tier.name(), std::process::id()));
     let _ = std::fs::create_dir_all(&tmp);
     let mut children = Vec::new();
     for w in 0..n {
@@ -277,12 +279,13 @@ fn check(id: &str, tier: Tier) -> i32 {
             "regression_replays": regression,
             "exhaustive": total.exhaustive,
             "workers": n,
+            "fuzz": std::env::var("VH_FUZZ_SUMMARY").ok().and_then(|p| std::fs::read(p).ok()).and_then(|b| serde_json::from_slice::<Value>(&b).ok()),
         },
         "assumptions": prop.assumptions(),
         "wall_s": (t0.elapsed().as_millis() as f64) / 1000.0,
         "violations": violations.len(),
     });
-    let evdir = Path::new(VERIF).join("evidence");
+    let evdir = Path::new(&verif_root()).join("evidence");
     let _ = std::fs::create_dir_all(&evdir);
     let mut f = std::fs::File::create(evdir.join(format!("{id}.json"))).unwrap();
     f.write_all(serde_json::to_string_pretty(&ev).unwrap().as_bytes()).unwrap();
@@ -327,7 +330,7 @@ fn main() {
                         let known = load_known().into_iter().find(|k| {
                             k.status == "known"
                                 && f.class == k.class
-                                && Path::new(VERIF).join(&k.replay).canonicalize().ok() == Path::new(&args[1]).canonicalize().ok()
+                                && Path::new(&verif_root()).join(&k.replay).canonicalize().ok() == Path::new(&args[1]).canonicalize().ok()
                         });
                         eprintln!("{}: {}", f.class, f.msg);
                         match known {
@@ -345,6 +348,67 @@ fn main() {
                 Err(e) => {
                     eprintln!("{e}");
                     2
+                }
+            }
+        }
+        Some("corpus") => {
+            // vh corpus <ID> <dir>: small valid inputs as a starting corpus for the libFuzzer campaign
+            let dir = Path::new(&args[2]);
+            let _ = std::fs::create_dir_all(dir);
+            let mut n = 0;
+            let mut put = |bytes: Vec<u8>| {
+                let _ = std::fs::write(dir.join(format!("seed{n:04}")), bytes);
+                n += 1;
+            };
+            match args[1].as_str() {
+                "C15" => {
+                    for (i, g) in [(0u32, 1u32), (1, 1), (127, 1), (128, 2), (300, 77), (u32::MAX, 1), (5, (1 << 31) - 1), (u32::MAX, (1 << 31) - 1), (1 << 20, 1 << 20)] {
+                        if let Some(e) = vh::props::c15::entity(i, g) {
+                            let mut v = Vec::new();
+                            let _ = bevy_replicon::shared::entity_serde::serialize_entity(&mut v, e);
+                            put(v.clone());
+                            let mut w = i.to_le_bytes().to_vec();
+                            w.extend(g.to_le_bytes());
+                            w.extend(v);
+                            put(w);
+                        }
+                    }
+                }
+                "C06" => {
+                    for auth in 0..2u8 {
+                        for ch in 0..vh::props::c06::NCH as u8 {
+                            put(vec![auth | (ch << 1), 1, 255]);
+                            put(vec![auth | (ch << 1), 1, 2, 0xff, 0xff, 0xff, 0xff, 0x0f]);
+                            put(vec![auth | (ch << 1), 0, 0, 1, 2, 3]);
+                        }
+                    }
+                }
+                _ => {}
+            }
+            println!("wrote {n} seed inputs");
+            0
+        }
+        Some("fuzz-replay") => {
+            // vh fuzz-replay <ID> <artifact>: run a libFuzzer artifact through the same oracle; on failure write a replay file
+            install_panic_hook();
+            let id = args[1].as_str();
+            let data = std::fs::read(&args[2]).unwrap_or_default();
+            let out = match id {
+                "C06" => vh::props::c06::run_fuzz(&data),
+                "C15" => vh::props::c15::run_fuzz(&data),
+                _ => Outcome::ok(),
+            };
+            match out.fail {
+                None => {
+                    println!("artifact passes: property={id}");
+                    0
+                }
+                Some(f) => {
+                    let fl = Failure { unit: "fuzz".into(), case: json!(data), fail: f };
+                    let path = write_replay(id, &fl);
+                    eprintln!("{}: {}", fl.fail.class, fl.fail.msg);
+                    println!("VIOLATION property={id} replay={}", path.display());
+                    1
                 }
             }
         }
